@@ -147,7 +147,14 @@ def c06(chk, g):
         for p in c["paths"]:
             if not p["ret"].startswith("ptr:"):
                 continue
-            if any(a["kind"] in HARD for a in p["alarms"]):
+            hard = [a for a in p["alarms"] if a["kind"] in HARD]
+            if hard:
+                # a write that may leave the output field (or the object) while the result is produced: the result's extent is not
+                # established, which is this property's own clause (shorter than CRYPT_OUTPUT_SIZE); other alarm kinds are C04's
+                wf = [a for a in hard if a["kind"] in ("W", "FIELD")]
+                if wf:
+                    a = wf[0]
+                    chk.fail("X-LEN", "len|%s|%s@%s:%d" % (mt["base"], a["kind"], a["fn"], a["line"]), "while the result is written, %s line %d: %s - the result is not confined to the %d-byte output field [%s]" % (a["fn"], a["line"], a["msg"], OUT, d), "%s:%d" % (a["fn"], a["line"]), {"cell": cid})
                 continue
             n += 1
             ok, ln, chars = terminated(p)
